@@ -124,3 +124,29 @@ func (c *vFragConn) Read(p []byte) (int, error) {
 	c.off += n
 	return n, nil
 }
+
+// VH_C16_HandshakeLargeAuth: an auth payload larger than one 64 KiB read
+// chunk (versions 1 and 2 carry it in act two with a 32-bit length), delivered
+// to the initiator in reads of at most 1000, 60000 or 65535 bytes: the
+// handshake completes and the initiator holds exactly the payload.
+func VH_C16_HandshakeLargeAuth() {
+	cfg := &vHSConfig{kk: vBool("kk")}
+	if cfg.kk {
+		cfg.cMin, cfg.cMax, cfg.sMin, cfg.sMax = 2, 2, 2, 2
+	} else {
+		v := byte(vIntRange("version", 1, 2))
+		cfg.cMin, cfg.cMax, cfg.sMin, cfg.sMax = 0, 2, 0, v
+		cfg.cliPW, cfg.srvPW = vSamePW()
+	}
+	auth := vStream("auth", vParam("authlen", 70000))
+	cfg.auth = auth
+	hs, ok := vSetup(cfg)
+	vAssert(ok, "machine construction failed")
+	hs.s2c.fragAll = [3]int{1000, 60000, 65535}[vIntRange("maxread", 0, 2)]
+	vRunHandshake(hs)
+	vReach("large-auth")
+	vAssert(hs.cli.err == nil && hs.srv.err == nil, "a valid handshake with a large auth payload failed because the stream delivered it in fragments")
+	if hs.cli.err == nil && hs.srv.err == nil {
+		vAgree(hs, auth)
+	}
+}
